@@ -270,6 +270,8 @@ func c17Setup(c *Cli, state string) map[string]string {
 		c.Do("SET", `k"q`, `id"\`, "FIELD", `f"n`, "v\"\x01\\", "STRING", "va\"l\\ue\n\xff\x00end")
 		c.Do("SET", `k"q`, "i\td", "FIELD", "plain", "1", "POINT", "1", "2")
 		c.Do("SET", "k1", "unié世", "STRING", "café 世界 </script>")
+		c.Do("SET", "k%d", "100%", "FIELD", "f%s", "5", "FIELD", "g%", "50%v", "STRING", "%!s(MISSING)%%")
+		c.Do("SET", "k%d", "%x", "FIELD", "f%s", "7", "POINT", "1", "2")
 		c.Do("SETCHAN", `ch"q`, "META", `m"k`, `m\v`, "NEARBY", `k"q`, "FENCE", "POINT", "1", "2", "100")
 		return sha
 	}
@@ -284,7 +286,9 @@ func c17Extra(state string) [][]string {
 	return [][]string{{"KEYS", "*"}, {"SCAN", k}, {"SCAN", k, "IDS"}, {"SEARCH", k}, {"SEARCH", k, "IDS"}, {"GET", k, id}, {"GET", k, id, "WITHFIELDS"}, {"FGET", k, id, `f"n`},
 		{"TYPE", k}, {"BOUNDS", k}, {"EXISTS", k, id}, {"TTL", k, id}, {"STATS", k}, {"CHANS", "*"}, {"HOOKS", "*"}, {"SCAN", k, "MATCH", `id"*`, "IDS"}, {"NEARBY", k, "POINT", "1", "2"},
 		{"GET", "k1", "unié世"}, {"SEARCH", "k1"}, {"JGET", k, id}, {"PDEL", k, `i*`}, {"GET", "no\"such", "x"}, {"GET", k, "no\"id"}, {"FSET", k, "no\"id", "f", "1"},
-		{"BOGUS\"CMD", "x"}, {"SET", k, "x", "POINT", "bad\"num", "1"}, {"DELCHAN", `ch"q`}}
+		{"BOGUS\"CMD", "x"}, {"SET", k, "x", "POINT", "bad\"num", "1"}, {"DELCHAN", `ch"q`},
+		{"SCAN", "k%d"}, {"SCAN", "k%d", "IDS"}, {"SEARCH", "k%d"}, {"GET", "k%d", "100%", "WITHFIELDS"}, {"GET", "k%d", "%x", "WITHFIELDS", "POINT"}, {"FGET", "k%d", "100%", "g%"}, {"NEARBY", "k%d", "POINT", "1", "2"},
+		{"GET", "k%d", "no%sid"}, {"GET", "no%dkey", "x"}, {"BOGUS%s"}, {"TYPE", "k%d"}, {"STATS", "k%d"}, {"SET", "k%d", "y", "POINT", "bad%d", "1"}}
 }
 
 func checkC17(job *Job, res *Result) {
@@ -476,6 +480,10 @@ func checkC17(job *Job, res *Result) {
 					}
 				}
 				nc.Close()
+				natBody := ""
+				if strings.HasPrefix(nb, "$") && strings.Contains(nb, " ") && len(nb) > 2 {
+					natBody = nb[strings.Index(nb, " ")+1 : len(nb)-2]
+				}
 				// HTTP -> JSON body
 				hc := x.Dial(b.Addr)
 				hc.Send([]byte("GET /" + url.PathEscape(line) + " HTTP/1.1\r\nHost: x\r\n\r\n"))
@@ -499,6 +507,14 @@ func checkC17(job *Job, res *Result) {
 						if _, p := jsonDoc(body); p != "" {
 							viol("http-json-malformed", p+": "+vclip(body, 200))
 						}
+						// the same server, the same state, the same command: the JSON
+						// connection, the native and the HTTP transport carry one document
+						if !mutating(it.name) && !c17Volatile[it.name] && j.K == '$' {
+							jn, nn, hn := c17Norm(j.S), c17Norm(natBody), c17Norm(body)
+							if jn != nn || jn != hn {
+								viol("transports-disagree", fmt.Sprintf("JSON-mode connection %s | native %s | HTTP %s", vclip(jn, 200), vclip(nn, 200), vclip(hn, 200)))
+							}
+						}
 					}
 				}
 				hc.Close()
@@ -519,4 +535,18 @@ func mutating(name string) bool {
 		return true
 	}
 	return false
+}
+
+// commands whose reply legitimately differs between two executions
+var c17Volatile = map[string]bool{"SERVER": true, "INFO": true, "STATS": false, "GC": true, "HEALTHZ": false, "CLIENT": true, "CONFIG": false, "TIMEOUT": false, "SLEEP": true}
+
+// c17Norm: the document without "elapsed", keys sorted.
+func c17Norm(body string) string {
+	var v map[string]any
+	if json.Unmarshal([]byte(body), &v) != nil {
+		return "<unparsable> " + body
+	}
+	delete(v, "elapsed")
+	b, _ := json.Marshal(v)
+	return string(b)
 }
